@@ -389,7 +389,7 @@ def corruption_part(ctx) -> None:
             idx += 1
             if ctx.mine(idx):
                 corrupted_cache_case(ctx, big[:cut], ("prefix-large", cut), d)
-        for k in range(ctx.pick(600, 6000)):
+        for k in range(ctx.pick(600, 40000)):
             idx += 1
             if not ctx.mine(idx):
                 continue
@@ -622,7 +622,7 @@ def strace_part(ctx) -> None:
 
 
 async def _async_parts(ctx) -> None:
-    for idx in range(ctx.pick(1500, 20000)):
+    for idx in range(ctx.pick(1500, 60000)):
         if ctx.mine(idx):
             pairing_roundtrip(ctx, ctx.grng("C20.A", idx), idx)
     fixtures = sorted((Path(REPO) / "tests/fixtures").glob("*.json"))
@@ -638,7 +638,7 @@ async def _async_parts(ctx) -> None:
             fi += 1
             if ctx.mine(fi):
                 database_roundtrip(ctx, em, f"fixture:{f.name}:{transport}", ctx.grng("C20.B.fix", f.name, transport), transport)
-    for idx in range(ctx.pick(1500, 20000)):
+    for idx in range(ctx.pick(1500, 60000)):
         if ctx.mine(idx):
             rng = ctx.grng("C20.B", idx)
             database_roundtrip(ctx, gen_entity_map(rng), f"random:{idx}", rng, rng.choice(["IP", "BLE", "CoAP"]))
